@@ -98,6 +98,9 @@ func UnmarshalAttribute(attr *api.Attribute) (bgp.PathAttributeInterface, error)
 		}
 		if rf.Safi() == bgp.SAFI_FLOW_SPEC_UNICAST || rf.Safi() == bgp.SAFI_FLOW_SPEC_VPN {
 			nexthop = netip.Addr{}
+		} else if rf == bgp.RF_OPAQUE && len(a.MpReach.NextHops) == 0 {
+			// the opaque family carries no next hop (zero-length next hop field)
+			nexthop = netip.Addr{}
 		} else if len(a.MpReach.NextHops) > 0 {
 			nexthop, err = netip.ParseAddr(a.MpReach.NextHops[0])
 			if err != nil {
@@ -2249,7 +2252,8 @@ func UnmarshalNLRIs(rf bgp.Family, values []*api.NLRI) ([]bgp.NLRI, error) {
 
 func NewMpReachNLRIAttributeFromNative(a *bgp.PathAttributeMpReachNLRI) (*api.MpReachNLRIAttribute, error) {
 	var nexthops []string
-	if a.SAFI == bgp.SAFI_FLOW_SPEC_UNICAST || a.SAFI == bgp.SAFI_FLOW_SPEC_VPN {
+	if a.SAFI == bgp.SAFI_FLOW_SPEC_UNICAST || a.SAFI == bgp.SAFI_FLOW_SPEC_VPN || !a.Nexthop.IsValid() {
+		// no next hop (zero-length next hop field): nothing to report, certainly not "invalid IP"
 		nexthops = nil
 	} else {
 		// For backward compatibility with older versions; ipv4-mapped IPv6 addresses printed as IPv4 addresses.
